@@ -105,6 +105,16 @@ def run(project: Project, rep, tier: str):
         check_solve(rep, run_m, D_m)
     except AnalysisError as ex:
         rep.unmodelled("WS-SOLVE", fi, fi.node, f"matching=True: {ex}"[:160])
+    n_sc = 0
+    from .distances import colsort_decides
+    for ev in colsort_decides(run_):
+        n_sc += 1
+        rep.refuted("WS-SHORT", fi, ev["node"], "a diagram's birth and death columns are sorted independently (np.sort(..., axis=0)) and the result decides the "
+                    "distance: two different diagrams with the same births and the same deaths, paired differently, are treated as "
+                    "equal (0 returned for [[0,2],[1,3]] vs [[0,3],[1,2]], whose distance is 1)",
+                    construct=f"{WS}: column-wise sort")
+    if not n_sc:
+        rep.discharged("WS-SHORT", fi, fi.node, "no short cut compares the diagrams column by column", nontrivial=False)
     check_empty(rep, project, WS, rule="WS-EMPTY")
     # WS-DTYPE: representation independence of the distance's own input handling — no float store into an array typed by a diagram,
     # no cast of one diagram to the dtype of the other (rules/dtype_rule.py) — over the entry point and the helpers it calls
